@@ -91,6 +91,16 @@ static int out_mask_map[] =
 	IO_MASK_WRITE
 };
 
+/* an I/O handler may fail without setting an error number and leave HAWK_ENOERR
+ * or a stale HAWK_EIONMNF behind. run.c takes a failure with HAWK_ENOERR for the
+ * pseudo-error raised by exit() and fflush() takes HAWK_EIONMNF for a missing
+ * stream. flag the handler failure explicitly in these cases. */
+static HAWK_INLINE void flag_handler_failure (hawk_rtx_t* rtx)
+{
+	hawk_errnum_t e = hawk_rtx_geterrnum(rtx);
+	if (e == HAWK_ENOERR || e == HAWK_EIONMNF) hawk_rtx_seterrnum (rtx, HAWK_NULL, HAWK_EIOIMPL);
+}
+
 hawk_rio_type_t hawk_rtx_intoriotype (hawk_rtx_t* rtx, hawk_in_type_t in_type)
 {
 	return in_type_map[in_type];
@@ -171,6 +181,7 @@ static int find_rio_in (
 		x = handler(rtx, HAWK_RIO_CMD_OPEN, p, HAWK_NULL, 0);
 		if (x <= -1)
 		{
+			flag_handler_failure (rtx);
 			hawk_rtx_freemem (rtx, p->name);
 			hawk_rtx_freemem (rtx, p);
 			return -1;
@@ -423,6 +434,7 @@ int hawk_rtx_readio (hawk_rtx_t* rtx, hawk_in_type_t in_type, const hawk_ooch_t*
 			x = handler(rtx, HAWK_RIO_CMD_READ, p, p->in.u.buf, HAWK_COUNTOF(p->in.u.buf));
 			if (x <= -1)
 			{
+				flag_handler_failure (rtx);
 				ret = -1;
 				break;
 			}
@@ -741,6 +753,7 @@ int hawk_rtx_readiobytes (hawk_rtx_t* rtx, hawk_in_type_t in_type, const hawk_oo
 			x = handler(rtx, HAWK_RIO_CMD_READ_BYTES, p, p->in.u.bbuf, HAWK_COUNTOF(p->in.u.bbuf));
 			if (x <= -1)
 			{
+				flag_handler_failure (rtx);
 				ret = -1;
 				break;
 			}
@@ -1112,6 +1125,7 @@ static int prepare_for_write_io_data (hawk_rtx_t* rtx, hawk_out_type_t out_type,
 		n = handler(rtx, HAWK_RIO_CMD_OPEN, p, HAWK_NULL, 0);
 		if (n <= -1)
 		{
+			flag_handler_failure (rtx);
 			hawk_rtx_freemem (rtx, p->name);
 			hawk_rtx_freemem (rtx, p);
 			return -1;
@@ -1142,7 +1156,11 @@ int hawk_rtx_writeiostr (hawk_rtx_t* rtx, hawk_out_type_t out_type, const hawk_o
 		hawk_ooi_t n;
 
 		n = wid.handler(rtx, HAWK_RIO_CMD_WRITE, wid.p, str, len);
-		if (n <= -1) return -1;
+		if (n <= -1)
+		{
+			flag_handler_failure (rtx);
+			return -1;
+		}
 
 		if (n == 0)
 		{
@@ -1169,7 +1187,11 @@ int hawk_rtx_writeiobytes (hawk_rtx_t* rtx, hawk_out_type_t out_type, const hawk
 		hawk_ooi_t n;
 
 		n = wid.handler(rtx, HAWK_RIO_CMD_WRITE_BYTES, wid.p, str, len);
-		if (n <= -1) return -1;
+		if (n <= -1)
+		{
+			flag_handler_failure (rtx);
+			return -1;
+		}
 
 		if (n == 0)
 		{
@@ -1220,7 +1242,11 @@ int hawk_rtx_flushio (hawk_rtx_t* rtx, hawk_out_type_t out_type, const hawk_ooch
 		    (name == HAWK_NULL || hawk_comp_oocstr(p->name, name, 0) == 0))
 		{
 			n = handler(rtx, HAWK_RIO_CMD_FLUSH, p, HAWK_NULL, 0);
-			if (n <= -1) return -1;
+			if (n <= -1)
+			{
+				flag_handler_failure (rtx);
+				return -1;
+			}
 			ok = 1;
 		}
 
@@ -1279,7 +1305,11 @@ int hawk_rtx_nextio_read (hawk_rtx_t* rtx, hawk_in_type_t in_type, const hawk_oo
 	}
 
 	n = handler(rtx, HAWK_RIO_CMD_NEXT, p, HAWK_NULL, 0);
-	if (n <= -1) return -1;
+	if (n <= -1)
+	{
+		flag_handler_failure (rtx);
+		return -1;
+	}
 
 	if (n == 0)
 	{
@@ -1349,7 +1379,11 @@ int hawk_rtx_nextio_write (hawk_rtx_t* rtx, hawk_out_type_t out_type, const hawk
 	}
 
 	n = handler(rtx, HAWK_RIO_CMD_NEXT, p, HAWK_NULL, 0);
-	if (n <= -1) return -1;
+	if (n <= -1)
+	{
+		flag_handler_failure (rtx);
+		return -1;
+	}
 
 	if (n == 0)
 	{
